@@ -133,6 +133,7 @@ pub proof fn lemma_info_image(d0: Seq<u8>, h: Seq<u8>, z: Seq<u8>, tso: int, s: 
 }
 
 //@extract fn bigtools/src/bbi/bbiwrite.rs write_blank_headers
+//@rule R16
 //@rule R3 min=3
 //@rule R8
 //@sub /<W: Write \+ Seek \+ Send \+ 'static>\(\s*file: &mut BufWriter<W>,/ => (file: &mut FSink, min=1
@@ -164,6 +165,7 @@ pub proof fn lemma_info_image(d0: Seq<u8>, h: Seq<u8>, z: Seq<u8>, tso: int, s: 
 //@end
 
 //@extract fn bigtools/src/bbi/bbiwrite.rs write_info
+//@rule R16
 //@rule R3 min=24
 //@rule R6 min=1
 //@rule R7 min=1
